@@ -317,6 +317,130 @@ def check_uchar(job):
     return out
 
 
+# ---- f-strings over Python objects: which conversion of which operand lands at which position of the join ---------------------------
+FS_TEMPLATE = """# cython: language_level=3
+def fs(x): return f"{x!s}|{x!r}|{x!a}|{x}"
+def fs2(x, y): return f"{x!r}{y}{x!r}{x}{y!s}"
+def fs3(x, y): return f"<{x}{x!s}{y!a}{x!a}>"
+def fs4(str s): return f"{s!a}|{s!r}|{s!s}|{s}"
+def fs5(str s, str t): return f"{s}{t!r}{s!r}{t}"
+def fs6(str s): return f"{s!r}, {s!r} is not {s} -> {s!a}"
+"""
+FS_KERNELS = {'fs': 1, 'fs2': 2, 'fs3': 2, 'fs4': 1, 'fs5': 2, 'fs6': 1}
+_BF = None
+
+
+def check_fstring(fn):
+    import ast
+    out = []
+    t0 = time.time()
+    nargs = FS_KERNELS[fn]
+    # expected substitutions from the source itself
+    tree = ast.parse(FS_TEMPLATE.replace('# cython: language_level=3', '').replace('(str s, str t)', '(s, t)').replace('(str s)', '(s)'))
+    fdef = [f for f in tree.body if f.name == fn][0]
+    js = fdef.body[0].value
+    argnames = [a.arg for a in fdef.args.args]
+    subs = [(argnames.index(v.value.id), {115: 's', 114: 'r', 97: 'a', -1: 'f'}[v.conversion]) for v in js.values if isinstance(v, ast.FormattedValue)]
+    try:
+        ex, env = _BF.new_exec(unroll=12)
+        for nm in ('Py_INCREF', 'Py_DECREF', 'Py_XDECREF', 'Py_XINCREF'):
+            ex.stubs[nm] = lambda ex_, g, a, rt, c: None
+        ex.stubs['__Pyx_AddTraceback'] = lambda ex_, g, a, rt, c: None
+        ms = ex.global_ptr('__pyx_mstate_global_static')
+        msr = ex.regions[next(iter(ms.regions))]
+        msr.fields.clear()
+        msr.lazy = True
+        args = []
+        for k in range(nargs):
+            p_, inv = env.make_opaque('arg%d' % k)
+            ex.assumptions.append(inv)
+            args.append(p_)
+        convs = []       # (event, kind, result region)
+
+        def conv(kind):
+            def stub(ex_, g, a, rt, caller):
+                r = ex_.new_region('%s_result_%d' % (kind, len(convs)), size=None, lazy=True)
+                e = env.event(g, kind, a, ex_.ptr_to(r))
+                convs.append((e, kind, r))
+                return ex_.ptr_to(r)
+            return stub
+        ex.stubs['PyObject_Str'] = conv('s')
+        ex.stubs['PyObject_Repr'] = conv('r')
+        ex.stubs['PyObject_ASCII'] = conv('a')
+        ex.stubs['__Pyx_PyObject_FormatSimple'] = conv('f')
+        ex.stubs['__Pyx_PyObject_Format'] = conv('f')
+        ex.stubs['PyObject_Format'] = conv('f')
+        ex.stubs['__Pyx_PyUnicode_Unicode'] = conv('u')          # str-typed operand: the string itself ('None' for None)
+        ex.stubs['__Pyx_PyObject_FormatSimpleAndDecref'] = lambda ex_, g, a, rt, c: a[0]       # str(x) / repr(x) / ascii(x) are already strings: identity
+        ex.stubs['__Pyx_PyObject_FormatAndDecref'] = lambda ex_, g, a, rt, c: a[0]
+        joins = []
+        pt = ir.T('ptr', elem=ir.T('int', bits=8))
+
+        def join(ex_, g, a, rt, caller):
+            n = z3.simplify(a[1])
+            cnt = n.as_long() if z3.is_bv_value(n) else 0
+            items = [ex_.load(symex.Ptr(a[0].bv + 8 * i, a[0].regions), pt, g, 'stub') for i in range(cnt)]
+            r = ex_.ptr_to(ex_.new_region('joined', size=None, lazy=True))
+            joins.append((env.event(g, 'join', a, r), cnt, items))
+            return r
+        ex.stubs['__Pyx_PyUnicode_Join'] = join
+        ret, rg = ex.run(fname_pf(_BF, fn), [symex.NULLPTR] + args)
+    except (symex.Unsupported, ir.ParseError, KeyError, IndexError) as e:
+        return [dict(name='f-string %s:encode' % fn, status='inconclusive', s=time.time() - t0, detail='Unsupported: %s' % str(e)[:300], mandatory=True)]
+    pre = list(ex.assumptions)
+    res = []
+    ntotal = len(js.values)
+    good = z3.BoolVal(False)
+    for (je, cnt, items) in joins:
+        if cnt != ntotal:
+            continue
+        ok = [je.guard, ret.bv == je.ret.bv]
+        for pos, v in enumerate(js.values):
+            if not isinstance(v, ast.FormattedValue):
+                continue
+            k, kind = subs[[i for i, vv in enumerate([w for w in js.values if isinstance(w, ast.FormattedValue)]) if vv is v][0]]
+            kinds = (kind, 'u') if kind in ('s', 'f') else (kind,)
+            alts = [z3.And(e.guard, e.args[0].bv == args[k].bv, items[pos].bv == z3.BitVecVal(r.base, 64)) for (e, kd, r) in convs if kd in kinds]
+            ok.append(z3.Or(*alts) if alts else z3.BoolVal(False))
+        good = z3.Or(good, z3.And(*ok))
+    r1, m1, s1 = solve.check(pre + [rg, ret.bv != 0, z3.Not(good)], T())
+    d = dict(name='f-string %s: every substitution position of the join receives the result of the conversion (!s / !r / !a / format) written at that position, applied to the operand '
+                  'written there (%d substitutions)' % (fn, len(subs)), s=s1, mandatory=True, status={'unsat': 'proved', 'sat': 'refuted'}.get(r1, 'inconclusive'))
+    if r1 == 'sat':
+        d['cex'] = dict(kind='fstring', fn=fn)
+    res.append(d)
+    r2, _, s2 = solve.check(pre + [rg, ret.bv != 0], T())
+    res.append(dict(name='f-string %s: reach' % fn, s=s2, mandatory=True, status={'sat': 'witness', 'unsat': 'vacuous'}.get(r2, 'inconclusive')))
+    return res
+
+
+def fname_pf(B, fn):
+    c = [f for f in B.module.functions if re.match(r'^__pyx_pf_\d+%s_\d*%s$' % (B.name, fn), f)]
+    if len(c) != 1:
+        raise KeyError('python function %s not found (%r)' % (fn, c))
+    return c[0]
+
+
+FS_REPLAY = r"""
+import sys
+sys.path.insert(0, %(dir)r)
+import %(mod)s as M
+class X:
+    def __init__(s, n): s.n = n
+    def __str__(s): return 'str(%%s)' %% s.n
+    def __repr__(s): return 'repr(%%s\xe9)' %% s.n
+    def __format__(s, spec): return 'fmt(%%s)' %% s.n
+x, y = X('x'), X('y')
+bad = []
+s, t = 'a\xe9"b', "q'"
+for got, want in ((M.fs(x), f"{x!s}|{x!r}|{x!a}|{x}"), (M.fs2(x, y), f"{x!r}{y}{x!r}{x}{y!s}"), (M.fs3(x, y), f"<{x}{x!s}{y!a}{x!a}>"),
+                  (M.fs4(s), f"{s!a}|{s!r}|{s!s}|{s}"), (M.fs5(s, t), f"{s}{t!r}{s!r}{t}"), (M.fs6(s), f"{s!r}, {s!r} is not {s} -> {s!a}")):
+    if got != want: bad.append((got, want))
+print('REPLAY', bad)
+print('REPLAY-REPRODUCED' if bad else 'REPLAY-HOLDS')
+"""
+
+
 REPLAY = r'''
 import sys
 sys.path.insert(0, %(dir)r)
@@ -404,6 +528,69 @@ def run(rep, tier, only=None):
                     rep.obligation(d['name'], 'inconclusive', d['s'], d.get('mandatory', True), 'counterexample %s did not reproduce: %s' % (d['cex'], txt))
             else:
                 rep.obligation(d['name'], d['status'], d['s'], d.get('mandatory', True), d.get('detail'))
+    if not only or 'fstring' in only:
+        global _BF
+        _BF = harness.build_template('c18f', FS_TEMPLATE)
+        fnat = None
+        for fn in FS_KERNELS:
+            for d in check_fstring(fn):
+                if d['status'] == 'refuted':
+                    if fnat is None:
+                        fnat = build.native(_BF.cfile)
+                    p = subprocess.run(['/verif/.venv/bin/python', '-c', FS_REPLAY % dict(dir=os.path.dirname(fnat), mod=_BF.name)], capture_output=True, text=True, timeout=60)
+                    txt = (p.stdout + p.stderr).strip()[-400:]
+                    rep.validated += 1
+                    if 'REPLAY-REPRODUCED' in txt or p.returncode < 0:
+                        rep.obligation(d['name'], 'refuted', d['s'], True, str(d['cex']))
+                        rep.violation('%s: %s' % (d['name'], txt), dict(cex=d['cex'], replay_output=txt))
+                    else:
+                        rep.obligation(d['name'], 'inconclusive', d['s'], True, 'counterexample did not reproduce: %s' % txt)
+                else:
+                    rep.obligation(d['name'], d['status'], d['s'], d.get('mandatory', True), d.get('detail'))
+        rep.functions.append('generated code of 3 f-strings over Python objects with !s / !r / !a / no conversion and repeated operands (ExprNodes.JoinedStrNode / FormattedValueNode, '
+                             'Optimize.FinalOptimizePhase.visit_JoinedStrNode de-duplication)')
+        rep.bounds.append('f-strings over objects: which conversion of which operand reaches which join position; the text produced by str/repr/ascii/format and by the join is CPython\'s')
+    if not only or 'pct' in only:
+        # '%' formatting with a literal template: the rewriting into f-string nodes (pure Python, CrossHair over selectors)
+        from ..pysym import runner
+        from ..pysym.runner import Cond
+        import shutil
+        dpct = snapshot.scratch_dir('c18pct')
+        shutil.copy('/verif/vf/pysym/h_c18_pct.py', os.path.join(dpct, 'h_c18_pct.py'))
+        G = os.path.join(dpct, 'h_c18g.py')
+        L = ['import h_c18_pct as B', '']
+        names = []
+        for ti in range(8):
+            for half in range(2):
+                nm = 'pct_type%d_%d' % (ti, half)
+                L += ['def %s(pi: int, qi: int, vi: int) -> bool:' % nm, '    """', '    pre: %d <= pi < %d and 0 <= qi < 4 and 0 <= vi < 6' % (half * 9, half * 9 + 9),
+                      '    post: _ == True', '    """', '    return B.check(pi, qi, %d, vi)' % ti, '']
+                names.append(nm)
+        badnames = []
+        for ti in range(3, 8):
+            nm = 'pctbad_type%d' % ti
+            L += ['def %s(pi: int, qi: int, vi: int) -> bool:' % nm, '    """', '    pre: 0 <= pi < 18 and 0 <= qi < 4 and 0 <= vi < 2',
+                  '    post: _ == True', '    """', '    return B.check_bad(pi, qi, %d, vi)' % ti, '']
+            badnames.append(nm)
+        L += ['def twin(pi: int) -> bool:', '    """', '    pre: 0 <= pi < 18', '    post: _ == True', '    """', '    return B.twin_check(pi)', '']
+        open(G, 'w').write('\n'.join(L))
+        runner.run_twin(rep, G, 'twin', 60, extra_path=[dpct])
+        runner.run_conditions(rep, G, [Cond(n, 300 if tier == 'quick' else 1200) for n in names], extra_path=[dpct])
+
+        def classifier(call, func):
+            # known finding F14 only for the exact pattern: the rewritten code raises ValueError where '%' raises TypeError
+            nums = re.findall(r'-?\d+', call[call.index('('):])
+            m_ = re.match(r'pctbad_type(\d)', call)
+            if not m_ or len(nums) != 3:
+                return None
+            a_, b_, c_ = map(int, nums)
+            p_ = subprocess.run(['/verif/.venv/bin/python', '-c', 'import h_c18_pct as B; print(B.is_known_exception_class_difference(%d, %d, %d, %d))' % (a_, b_, int(m_.group(1)), c_)],
+                                capture_output=True, text=True, env=snapshot.child_env([dpct]), timeout=120)
+            return 'F14-pct-format-wrong-operand-type-raises-valueerror' if p_.stdout.strip().endswith('True') else None
+        runner.run_conditions(rep, G, [Cond(n, 300 if tier == 'quick' else 1200, mandatory=False) for n in badnames], extra_path=[dpct], known_classifier=classifier)
+        rep.functions.append('Cython/Compiler/Optimize.py: ConstantFolding._build_fstring (rewriting of "<literal>" % (tuple) into f-string nodes)')
+        rep.bounds.append('%-format rewriting: one placeholder "%[flags/width][.precision]type" over 18 flag/width prefixes x 4 precisions x types a s r f d o x X x up to 6 sample values per type; '
+                          'the rewritten conversion + format() must equal the % operator (value or exception class); templates the rewriting declines are left to CPython')
     rep.cov['states'] = sum(len(r) for r in results)
     rep.cov['transitions'] = sum(len(r) for r in results)
     rep.sample(dict(function='__Pyx____Pyx_PyUnicode_From_long', inputs='v symbolic 64-bit, width 0..40, pad in {" ", "0"}, format "d"'))
